@@ -253,8 +253,10 @@ def _set(xs):
 BAD_KINDS = ["lo", "hi", "spread", "depth", "gclo", "gchi"]
 
 
-def _layout(rng, n_t, n_a, chroms, unique_sizes):
-    """Bins of both classes laid out along the chromosomes: [(c, s, e, cls)] in genomic order."""
+def _layout(rng, n_t, n_a, chroms, unique_sizes, share_start=False):
+    """Bins of both classes laid out along the chromosomes: [(c, s, e, cls)] in genomic order.
+    share_start: about a third of the bins start where the previous bin of their chromosome starts, with another end
+    (overlapping baits: distinct coordinates, pairs and longer runs, first/last on a chromosome included)."""
     kinds = ["T"] * n_t + ["A"] * n_a
     rng.shuffle(kinds)
     per = {c: [] for c in chroms}
@@ -266,6 +268,7 @@ def _layout(rng, n_t, n_a, chroms, unique_sizes):
     for c in chroms:
         cur = rng.choice([0, 0, 1000, 54321])
         prev = None
+        last_s, ends = None, set()
         for k in per[c]:
             if k == "T":
                 gap = rng.choice([0, 0, 7, 60, 120, 249, 250, 251, 400, 3000])
@@ -276,8 +279,15 @@ def _layout(rng, n_t, n_a, chroms, unique_sizes):
                 gap = rng.choice([0, 500, 500, 2000])
                 size = rng.choice([500, 1000, 1000, 2000, 5000])
             s = cur + gap
+            if share_start and last_s is not None and rng.random() < 0.35:
+                s = last_s
+                while s + size in ends:
+                    size += 1 + (size % 3)
+            if s != last_s:
+                last_s, ends = s, set()
+            ends.add(s + size)
             bins.append((c, s, s + size, k))
-            cur = s + size
+            cur = max(cur, s + size)
             prev = k
     bins.sort()
     return bins
@@ -303,7 +313,8 @@ def gen_case(rng: random.Random, hard, var_kind, big):
         corr = [False, False, False]
     gc, edge, rmask = corr
     ties = hard and rng.random() < 0.7
-    bins = _layout(rng, n_t, n_a, chroms, unique_sizes=(edge and not ties))
+    share_start = rng.random() < 0.15
+    bins = _layout(rng, n_t, n_a, chroms, unique_sizes=(edge and not ties), share_start=share_start)
     n = len(bins)
     flat = rng.random() < 0.15
     hasgc, hasrmask, hasdepth = rng.random() < 0.85, rng.random() < 0.85, rng.random() < 0.9
@@ -400,7 +411,7 @@ def gen_case(rng: random.Random, hard, var_kind, big):
     # row orders: the reference usually in another order than the sample; the sample sometimes unsorted
     if rng.random() < 0.7:
         rng.shuffle(ref)
-    if rng.random() < 0.12:
+    if rng.random() < (0.5 if share_start else 0.12):
         rng.shuffle(tgt)
         rng.shuffle(ant)
     var = dict(NOVAR, kind=var_kind)
@@ -557,6 +568,19 @@ def _bumps(ctx: Ctx, rec):
         ctx.bump("sample_rows_not_in_genomic_order")
     if rkeys[:len(rec["tgt"])] != [tuple(r[:3]) for r in rec["tgt"]]:
         ctx.bump("reference_rows_not_positionally_aligned_with_target")
+    for tab in ("tgt", "ant"):
+        starts = [(r[0], r[1]) for r in rec[tab]]
+        run = max((starts.count(x) for x in set(starts)), default=0)
+        if run >= 2 and len(set(tuple(r[:3]) for r in rec[tab])) == len(rec[tab]):
+            ctx.bump(f"bins_sharing_a_start_in_{tab}_{'pair' if run == 2 else 'triple_or_more'}")
+            order = sorted(range(len(rec[tab])), key=lambda i: rec[tab][i][:3])
+            if starts[order[0]] == starts[order[1]] or starts[order[-1]] == starts[order[-2]]:
+                ctx.bump("bins_sharing_a_start_first_or_last_of_the_table")
+            if rec[tab] != sorted(rec[tab]):
+                ctx.bump("bins_sharing_a_start_rows_not_in_genomic_order")
+    both = [(r[0], r[1]) for r in rec["tgt"]]
+    if any((r[0], r[1]) in set(both) for r in rec["ant"]):
+        ctx.bump("target_and_antitarget_bin_sharing_a_start")
     if not rec["ant"]:
         ctx.bump("empty_antitarget")
     if not (rec["gc"] or rec["edge"] or rec["rmask"]):
@@ -593,17 +617,18 @@ def run(ctx: Ctx):
                 "run twice (depth x2^k / x arbitrary / rows permuted). A case is distinct by its whole encoded "
                 "input; non-trivial when the target table has >= 2 bins.")
     if dev == 1:
-        scopes = [dict(NB=3, KShifts=[0, 4], Pats=[1, 2], Scens=["same", "missing", "dupT", "dupRef", "permR", "perm"],
+        scopes = [dict(NB=3, KShifts=[0, 4], Pats=[1, 2], Scens=["same", "missing", "dupT", "dupRef", "permR", "perm", "tie2", "tie3"],
                        ColSets=["full"])]
     elif dev >= 2:
         scopes = [dict(NB=2, KShifts=[0], Pats=[2], Scens=["same", "permR"], ColSets=["full"])]
     elif thorough:
-        scens = ["same", "subset", "noanti", "missing", "missingA", "dupT", "dupA", "dupRef", "permR", "perm"]
+        scens = ["same", "subset", "noanti", "missing", "missingA", "dupT", "dupA", "dupRef", "permR", "perm", "tie2",
+                 "tie3"]
         scopes = [dict(NB=5, KShifts=[0, 1, 2, 3, 4, 5], Pats=[1, 2, 3, 4], Scens=scens, ColSets=["full"]),
                   dict(NB=3, KShifts=[0, 3], Pats=[1, 2], Scens=scens, ColSets=["full", "nogc", "normask", "nodepth"])]
     else:
         scopes = [dict(NB=4, KShifts=[0, 2, 4], Pats=[1, 2],
-                       Scens=["same", "subset", "noanti", "missing", "dupT", "dupRef", "permR", "perm"],
+                       Scens=["same", "subset", "noanti", "missing", "dupT", "dupRef", "permR", "perm", "tie2", "tie3"],
                        ColSets=["full"])]
     records = []
     for k, sc in enumerate(scopes):
